@@ -335,3 +335,13 @@ func splitPos(s string) (string, int) {
 	n, _ := strconv.Atoi(s[i+1:])
 	return s[:i], n
 }
+
+// hasConstruct reports whether an obligation with this rule and construct key was recorded.
+func (r *Run) hasConstruct(rule, construct string) bool {
+	for _, o := range r.obs {
+		if o.Rule == rule && o.Construct == construct {
+			return true
+		}
+	}
+	return false
+}
